@@ -15,6 +15,7 @@
  *                              l closed, d destroyed)
  *   conn <slot>                client slot connects: qb_ipcc_connect_async, server handshake turns,
  *                              qb_ipcc_connect_continue
+ *   connx <slot>               the same, but the client stops reading before the server answers (response send fails)
  *   req <slot>                 the slot's client sends one request (qb_ipcc_send)
  *   hup <slot>                 qb_ipcc_disconnect of the slot's client
  *   kill <slot>                the slot's client "dies": its setup socket is shut down, nothing is tidied up
@@ -449,6 +450,7 @@ static int start_service(int shm)
 	return 0;
 }
 
+static int die_in_handshake = 0;
 static int do_conn(int slot)
 {
 	int cfd = -1, guard, before = nconn;
@@ -457,11 +459,16 @@ static int do_conn(int slot)
 	qb_ipcc_connection_t *c;
 	c = qb_ipcc_connect_async(svc_name, 8192, &cfd);
 	if (!c) return -errno;
+	if (die_in_handshake) {
+		/* the client stops reading before the server answers: the server's response send fails (EPIPE) */
+		shutdown(((struct qb_ipcc_connection *)c)->setup.u.us.sock, SHUT_RD);
+	}
 	cur_slot = slot;
 	for (guard = 0; guard < 6 && nconn == before; guard++) server_turn(0, NULL);
 	cur_slot = -1;
 	res = qb_ipcc_connect_continue(c);
 	if (res != 0) return res;     /* the library freed the client object */
+	if (die_in_handshake) { qb_ipcc_disconnect(c); return -ENOTCONN; }
 	cli[slot] = c;
 	return 0;
 }
@@ -571,15 +578,16 @@ int main(void)
 			continue;
 		}
 		if (!svc) { printf("op %s ?\nr no-service\n", op); continue; }
-		if (!strcmp(op, "conn")) {
+		if (!strcmp(op, "conn") || !strcmp(op, "connx")) {
 			long slot = NUM(&p, 0);
 			int r;
-			printf("op conn %ld\n", slot);
+			die_in_handshake = (op[4] == 'x');
+			printf("op %s %ld\n", op, slot);
 			if (slot < 0 || slot >= MAXS || cli[slot] || svc_destroyed || nconn >= MAXC - 1) { printf("r skip\n"); print_state(); continue; }
 			r = do_conn((int)slot);
 			/* the client sees the accept callback's refusal code, or some transport error when the server
 			 * side was torn down inside the created callback */
-			if (r == last_accept_ret) printf("r %d\n", r);
+			if (r == last_accept_ret && !(die_in_handshake && r == 0)) printf("r %d\n", r);
 			else printf("r err\n");
 			print_state();
 			continue;
